@@ -140,10 +140,12 @@ CHECKS["C14"] = dict(
     text="Grid.moments executed symbolically for all four moment types (Cartesian in 1, 2, 3 dimensions) with a symbolic number of points, "
          "symbolic data and centres: each entry's reduction is matched (sum-range / sum-term) against the defining quadrature sum, incl. the "
          "(l,m) -> solid-harmonic row arithmetic of pure-radial moments (masked in-place updates), harmonics evaluated about the centre, output "
-         "shape, returned order list, argument validation. The order generator and solid_harmonics enter through contracts. Bounded/exhaustive "
-         "layer: generator to order 10 (thorough 40), explicit fsum oracles, Gaussians, dipole helper.",
+         "shape, returned order list, argument validation. generate_orders_horton_order for a symbolic order under (nested) loop contracts: number of "
+         "rows and the content of every row for Cartesian (1-3 dimensions), pure and pure-radial orders, argument validation; inside moments it and "
+         "solid_harmonics enter through their contracts. Bounded/exhaustive layer: generator to order 10 (thorough 40), explicit fsum oracles, "
+         "Gaussians, dipole helper.",
     design="8/C14",
-    note=TRUST + "generator block sizes and Horton row order by contract (exhaustively checked natively); the order loop is executed for three blocks.",
+    note=TRUST + "solid_harmonics rows in Horton order by contract (C08); the order loop of moments is executed for three blocks; dipole helper bounded only.",
     technique="contract-based deductive verification: AST symbolic execution with callee contracts + reduction matching, z3; exhaustive/bounded native layer as labelled stand-in")
 CHECKS["C18"] = dict(
     category="proof",
